@@ -540,11 +540,18 @@ _PRED_MEMO = {}
 
 def _pred_is_class(e, cls):
     """is `e` a call of a per-register predicate (`r.is_saved()`) that holds for exactly the registers of class `cls` (`saved_set`)? evaluated on all 32 registers, not trusted by name"""
-    if e.get("k") != "MethodCall" or e.get("args") or not e["name"].startswith("is_"):
-        return False
     F = _PRED_MEMO.get("F")
     c = callee_of(e) or ""
-    if F is None or c not in F.fns or "register" not in c:
+    if e.get("k") == "Call" and len(e.get("args") or []) == 1:
+        # a free predicate of the lint's own module: `is_saved(*read.get())`
+        g = (F.fns.get(c) if F is not None else None) or {}
+        if g.get("ret_ty") != "bool" or [t.lstrip("&") for t in (g.get("param_tys") or [])] != ["riscv_analysis::parser::register::Register"]:
+            return False
+    elif e.get("k") != "MethodCall" or e.get("args") or not e["name"].startswith("is_"):
+        return False
+    elif "register" not in c:
+        return False
+    if F is None or c not in F.fns:
         return False
     if (c, cls) not in _PRED_MEMO:
         try:
